@@ -91,3 +91,61 @@ class K04c(Harness):
         s = self.describe(values, p)["second_line"]
         shape = "".join("/" if c == "/" else "*" if c == "*" else "w" if c.isspace() else "x" for c in s)
         return "vc:%s:%s:%s" % (",".join(sorted(detail.get("failed", []))), "in_comment" if p["open"] else "plain", shape)
+
+
+import os
+import tempfile
+
+from vsg.vhdlFile import utils as vf_utils
+
+
+@register
+class K04f(Harness):
+    name = "K04f"
+    prop = "C04"
+    props = ("C04", "C16")
+    title = "read_vhdlfile returns every line of the file exactly once, for UTF-8 and legacy (ISO-8859-1) content, wherever the first non-ASCII byte sits relative to the read buffer"
+    functions = ("vsg.vhdlFile.utils",)
+    stubs = ("real files in a scratch directory under /verif/.scratch (the decoding is done by CPython's file object, not by proxies)",)
+    bounds = "file = n lines of ASCII comments (n such that the file is about 20 KiB) with one non-ASCII character at a byte offset out of {none, 5, 4095, 8190, 8191, 8192, 8193, 12000, 16384, last}; encoding in {utf-8, iso-8859-1}; LF or CRLF; final newline present or not (engine-forked)"
+    outside = "other encodings; files larger than 20 KiB"
+
+    def params(self, tier):
+        return [{}]
+
+    def run(self, eng, p):
+        enc = ["utf-8", "iso-8859-1"][eng.choose("encoding", 2)]
+        offs = [None, 5, 4095, 8190, 8191, 8192, 8193, 12000, 16384, -1]
+        off = offs[eng.choose("offset", len(offs))]
+        crlf = eng.bool("crlf")
+        final_nl = eng.bool("final_newline")
+        lines = ["-- line %04d of a header comment that is long enough" % i for i in range(400)]
+        text = ("\r\n" if crlf else "\n").join(lines) + (("\r\n" if crlf else "\n") if final_nl else "")
+        if off is not None:
+            k = len(text) - 3 if off == -1 else off
+            while text[k] in "\r\n":
+                k += 1
+            text = text[:k] + "\xe9" + text[k + 1:]
+        data = text.encode(enc)
+        want = text.split("\n")
+        if want and want[-1] == "":
+            want = want[:-1]
+        want = [w.rstrip("\r") for w in want]
+        d = os.path.join(os.path.dirname(os.path.dirname(os.path.abspath(__file__))), ".scratch")
+        os.makedirs(d, exist_ok=True)
+        fd, path = tempfile.mkstemp(suffix=".vhd", dir=d)
+        try:
+            with os.fdopen(fd, "wb") as f:
+                f.write(data)
+            got, err = vf_utils.read_vhdlfile(path)
+        finally:
+            os.unlink(path)
+        return [("no_error", err is None), ("every_line_once", list(got) == want)]
+
+    def describe(self, values, p):
+        return {"encoding": ["utf-8", "iso-8859-1"][values.get("encoding", 0)], "offset_choice": values.get("offset"), "crlf": values.get("crlf"), "final_newline": values.get("final_newline")}
+
+    def signature(self, values, p, detail):
+        if detail.get("kind") == "exception":
+            return "exception:%s@%s" % (detail.get("type"), __import__("re").sub(r":\d+:", ":", (detail.get("where") or ["?"])[-1]))
+        return "vc:" + ",".join(detail.get("failed", []))
